@@ -5,6 +5,7 @@
 //! truncation marker, except as a whole if/while/until condition where only one value is used anyway.
 //! Literals are emitted raw (`S:q:depth:hex`, `N:hex`); the Coq judge compares their denotations.
 use crate::common::*;
+use full_moon::ast::luau::{ElseIfExpression, IfExpression};
 use full_moon::ast::*;
 use full_moon::tokenizer::{Symbol, Token, TokenType};
 use full_moon::visitors::Visitor;
@@ -28,6 +29,8 @@ impl Visitor for Nf {
     fn visit_else_if(&mut self, n: &ElseIf) { self.conditions.push(n.condition() as *const _); }
     fn visit_while(&mut self, n: &While) { self.conditions.push(n.condition() as *const _); }
     fn visit_repeat(&mut self, n: &Repeat) { self.conditions.push(n.until() as *const _); }
+    fn visit_if_expression(&mut self, n: &IfExpression) { self.conditions.push(n.condition() as *const _); }
+    fn visit_else_if_expression(&mut self, n: &ElseIfExpression) { self.conditions.push(n.condition() as *const _); }
     fn visit_stmt(&mut self, _: &Stmt) { self.out.push("{S".into()); }
     fn visit_stmt_end(&mut self, _: &Stmt) { self.out.push("}".into()); }
     fn visit_last_stmt(&mut self, _: &LastStmt) { self.out.push("{L".into()); }
